@@ -20,6 +20,8 @@ mod cat_big;
 mod cat_field;
 #[path = "c05_ops/ffield.rs"]
 mod ffield;
+#[path = "c05_ops/probes.rs"]
+mod probes;
 #[path = "c05_ops/repair.rs"]
 mod repair;
 #[path = "c05_ops/scratch.rs"]
@@ -63,6 +65,7 @@ pub struct Budgets {
     pub thorough: bool,
     pub n_boundary: usize,
     pub n_random: usize,
+    pub max_specials: usize,
     pub seed_cells: usize,
     pub repair_nodes: u64,
     pub opts: OpOptions,
@@ -90,8 +93,14 @@ where
         jobs.push(Box::new(move |ctx: &Ctx, bud: &Budgets, rep: &mut Report| {
             let name = e.prog.name.clone();
             let mut rng = ctx.rng(&format!("c05-inputs-{name}"));
-            let inputs = cat_field::gen_inputs(&e, idx, bud.n_boundary, bud.n_random, &mut rng);
-            let opts = if e.prog.nonunique { &bud.opts_nonunique } else { &bud.opts };
+            let inputs = cat_field::gen_inputs(&e, idx, bud.n_boundary, bud.n_random, bud.max_specials, &mut rng);
+            let opts = &bud.opts;
+            if e.prog.nonunique {
+                probes::check_nonunique(&e.prog, &inputs, opts.max_bit_len, rep);
+                rep.count_n(&format!("class.{}.entries", K::TAG), 1);
+                rep.count_n(&format!("class.{}.inputs", K::TAG), inputs.len() as u64);
+                return (name, OpStats::default(), AttackStats::default());
+            }
             let st = check_op(&e.prog, &inputs, opts, ctx.seed, rep);
             let mut ast = AttackStats::default();
             if (e.wrap.is_some() || e.seed_moves) && !e.prog.nonunique {
@@ -132,7 +141,7 @@ fn big_jobs(thorough: bool, only: &Option<String>) -> Vec<Job> {
             let mut rng = ctx.rng(&format!("c05-inputs-{name}"));
             let wide = e.widths.iter().any(|w| *w >= 1024);
             let (nb, nr) = if wide { (bud.n_boundary.min(4), bud.n_random.min(3)) } else { (bud.n_boundary, bud.n_random) };
-            let inputs = cat_big::gen_inputs(&e, idx, nb, nr, &mut rng);
+            let inputs = cat_big::gen_inputs(&e, idx, nb, nr, bud.max_specials, &mut rng);
             let st = check_op(&e.prog, &inputs, &bud.opts, ctx.seed, rep);
             let mut ast = AttackStats::default();
             if e.attack.is_some() || e.seed_moves {
@@ -185,17 +194,17 @@ fn main() {
     );
     let thorough = ctx.tier == Tier::Thorough;
     let mut opts = OpOptions::new("C05", thorough);
-    opts.max_positions = if thorough { 6 } else { 3 };
+    opts.max_positions = if thorough { 4 } else { 2 };
     opts.ars = Some(if thorough {
         ArsBudget {
-            restarts: 6,
-            nodes_per_restart: 1500,
+            restarts: 3,
+            nodes_per_restart: 1000,
             max_changed: 32,
         }
     } else {
         ArsBudget {
-            restarts: 2,
-            nodes_per_restart: 400,
+            restarts: 1,
+            nodes_per_restart: 300,
             max_changed: 24,
         }
     });
@@ -204,10 +213,11 @@ fn main() {
     opts_nonunique.max_positions = 0;
     let bud = Budgets {
         thorough,
-        n_boundary: if thorough { 12 } else { 2 },
-        n_random: if thorough { 8 } else { 1 },
-        seed_cells: if thorough { 120 } else { 12 },
-        repair_nodes: if thorough { 6000 } else { 1500 },
+        n_boundary: if thorough { 10 } else { 1 },
+        n_random: if thorough { 6 } else { 1 },
+        max_specials: if thorough { 64 } else { 3 },
+        seed_cells: if thorough { 60 } else { 8 },
+        repair_nodes: if thorough { 2500 } else { 600 },
         opts,
         opts_nonunique,
     };
@@ -243,6 +253,9 @@ fn main() {
             );
         }
         stats.insert(name, st);
+    }
+    if only.is_none() || only.as_deref() == Some("probe") {
+        probes::run_probes(bud.opts.max_bit_len, &mut rep);
     }
     // Curve25519 field chips (not exposed by ZkStdLib): circuits built from scratch
     let sstats = scratch::run_curve25519(&ctx, &bud, &only, &mut rep);
